@@ -29,7 +29,7 @@ ASSUMPTIONS = [
     "that fails or differs is a violation",
     "synthetic outputs keep order keys uniform within one observable (documented precondition of dump_tar)",
 ]
-BUDGET = {"quick": {"examples": 1600, "wall": 300}, "thorough": {"examples": 40000, "wall": 3300}}
+BUDGET = {"quick": {"examples": 1600, "wall": 300}, "thorough": {"examples": 40000, "wall": 2400}}
 MANDATORY = {
     t: ["nontrivial", "source:real", "source:synthetic", "fmt:tar", "fmt:yaml", "chain:3", "xs", "empty-kinematics", "none-observable",
         "numpy-kinematics", "special-values"]
